@@ -128,6 +128,13 @@ class PortalRun:
         self.harness_errors: list[str] = []
         self.admin_tasks: list = []
 
+    def slim(self) -> "PortalRun":
+        """Drop everything but the recorded history (thousands of runs are kept until the model has been run)."""
+        for name in ("loop", "recs", "by_thread", "portal", "body_fut", "admin_tasks", "host_task", "tg", "_sess",
+                     "host_exc"):
+            self.__dict__.pop(name, None)
+        return self
+
     def _tw(self) -> float:
         """Bound for waiting on a helper thread; once the case has failed, do not spend time on further waits."""
         return 0.3 if (self.mon or self.harness_errors) else THREAD_WAIT
@@ -823,7 +830,7 @@ def run_script(ncalls: int, flat_ops: list[int], drain: bool = True) -> PortalRu
             r.drain()
     if getattr(r, "leaked_threads", None):
         r.mon.append(f"helper threads left hanging at the end of the case: {r.leaked_threads}")
-    return r
+    return r.slim()
 
 
 def random_case(rng: random.Random, nsteps: int) -> PortalRun:
@@ -867,7 +874,7 @@ def random_case(rng: random.Random, nsteps: int) -> PortalRun:
         r.drain()
     if getattr(r, "leaked_threads", None):
         r.mon.append(f"helper threads left hanging at the end of the case: {r.leaked_threads}")
-    return r
+    return r.slim()
 
 
 def case_of(r: PortalRun) -> list[int]:
@@ -945,6 +952,7 @@ def exhaustive_cases(ncalls: int, depth: int, kinds=(KCORO,), budget: int = 1000
             r.drain()
         if getattr(r, "leaked_threads", None):
             r.mon.append(f"helper threads left hanging at the end of the case: {r.leaked_threads}")
+        r.slim()
         if leaf or not nxt or r.mon:
             results.append(r)
         for v in nxt:
@@ -1233,7 +1241,7 @@ def e2e_fixed_scenarios():
 
 def run_e2e(tier: str, rng: random.Random):
     results = []
-    n = 60 if tier == "quick" else 1500
+    n = 60 if tier == "quick" else 1000
     backends = [("stock", {}), ("uvloop", {"use_uvloop": True})]
     try:
         import uvloop  # noqa: F401
@@ -1380,7 +1388,7 @@ def check(tier: str) -> int:
         runs.append(run_script(c["ncalls"], c["ops"]))
         corpus_names.append(f.name)
     n_corpus = len(runs)
-    n_random = 450 if tier == "quick" else 12000
+    n_random = 450 if tier == "quick" else 15000
     for _ in range(n_random):
         if sum(1 for r in runs if r.mon) >= 5:
             break                                  # enough failing inputs: report them instead of piling up time-outs
@@ -1390,7 +1398,7 @@ def check(tier: str) -> int:
     elif tier == "quick":
         ex = exhaustive_cases(1, 5, kinds=(KCORO,)) + exhaustive_cases(1, 4, kinds=(KSTART,))
     else:
-        ex = exhaustive_cases(1, 7, kinds=(KCORO,), budget=15000) + exhaustive_cases(1, 6, kinds=(KSTART, KSYNC), budget=15000) \
+        ex = exhaustive_cases(1, 7, kinds=(KCORO,), budget=20000) + exhaustive_cases(1, 6, kinds=(KSTART, KSYNC), budget=20000) \
             + exhaustive_cases(2, 5, kinds=(KCORO,), budget=12000)
     runs += ex
 
@@ -1419,7 +1427,7 @@ def check(tier: str) -> int:
 
     lap("model runs + vm_compute sample")
     e2e, backends = run_e2e(tier, rng)
-    race_rounds, race_budget = (12000, 6.0) if tier == "quick" else (150000, 40.0)
+    race_rounds, race_budget = (12000, 6.0) if tier == "quick" else (100000, 40.0)
     races = []
     for name in backends:
         rmon, rstats = e2e_cancel_race(race_rounds, race_budget, {"use_uvloop": True} if name == "uvloop" else {}, name)
